@@ -1,0 +1,80 @@
+//go:build verif
+
+// Contracts for the gRPC delivery handlers, read by /verif/govc.  A handler hands the caller's context
+// (it carries the transaction id) and arguments to the use case unchanged and answers with the use
+// case's verdict: nil stays nil, an error keeps its class on the wire.
+package store
+
+// ---- use cases as seen from here: what they were called with and what they answered is recorded ----
+//@ iface txUseCase.Commit
+//@   params ctx
+//@   modifies world.ucErr, world.ucCtx
+//@   ensures rec_ucErr: world.ucErr == result
+//@   ensures rec_ucCtx: world.ucCtx == ctx
+//@ iface txUseCase.Rollback
+//@   params ctx
+//@   modifies world.ucErr, world.ucCtx
+//@   ensures rec_ucErr: world.ucErr == result
+//@   ensures rec_ucCtx: world.ucCtx == ctx
+//@ iface txUseCase.Begin
+//@   params ctx, isoLevel
+//@   modifies world.ucErr, world.ucCtx, world.ucLevel, world.ucId
+//@   ensures rec_ucErr: world.ucErr == result1
+//@   ensures rec_ucCtx: world.ucCtx == ctx
+//@   ensures rec_ucLevel: world.ucLevel == isoLevel
+//@   ensures rec_ucId: world.ucId == result0
+//@ iface storeUseCase.Delete
+//@   params ctx, key
+//@   modifies world.ucErr, world.ucCtx, world.ucKey
+//@   ensures rec_ucErr: world.ucErr == result
+//@   ensures rec_ucCtx: world.ucCtx == ctx
+//@   ensures rec_ucKey: world.ucKey == key
+//@ iface storeUseCase.GetKeys
+//@   params ctx
+//@   modifies world.ucErr, world.ucCtx
+//@   ensures rec_ucErr: world.ucErr == result1
+//@   ensures rec_ucCtx: world.ucCtx == ctx
+
+// wireClass: the error class a status error carries on the wire.
+//@ pure func carries(e error, c int) bool =
+//@     e != nil && statusOf(e) != nil && typeis(stDetail(statusOf(e)), *store.Error) && unbox(stDetail(statusOf(e)), *store.Error) != nil &&
+//@     unbox(stDetail(statusOf(e)), *store.Error).Code == c
+
+//@ func (*Service).CommitTx
+//@   requires inv:    i != nil && i.txUsecase != nil
+//@   modifies world.ucErr, world.ucCtx
+//@   ensures  passed: world.ucCtx == ctx
+//@   ensures  ok:     result1 == nil <==> world.ucErr == nil
+//@   ensures  class:  result1 != nil ==> carries(result1, errors.classOf(world.ucErr))
+//@   ensures  resp:   result1 == nil ==> result0 != nil
+
+//@ func (*Service).RollbackTx
+//@   requires inv:    i != nil && i.txUsecase != nil
+//@   modifies world.ucErr, world.ucCtx
+//@   ensures  passed: world.ucCtx == ctx
+//@   ensures  ok:     result1 == nil <==> world.ucErr == nil
+//@   ensures  class:  result1 != nil ==> carries(result1, errors.classOf(world.ucErr))
+//@   ensures  resp:   result1 == nil ==> result0 != nil
+
+//@ func (*Service).BeginTx
+//@   requires inv:    i != nil && i.txUsecase != nil
+//@   modifies world.ucErr, world.ucCtx, world.ucLevel, world.ucId
+//@   ensures  passed: world.ucCtx == ctx
+//@   ensures  ok:     result1 == nil <==> world.ucErr == nil
+//@   ensures  class:  result1 != nil ==> carries(result1, errors.classOf(world.ucErr))
+//@   ensures  id:     result1 == nil ==> result0 != nil && result0.Id == world.ucId
+
+//@ func (*Service).DeleteFile
+//@   requires inv:    i != nil && i.sUsecase != nil
+//@   modifies world.ucErr, world.ucCtx, world.ucKey
+//@   ensures  passed: world.ucCtx == ctx && world.ucKey == ite(req == nil, "", req.Key)
+//@   ensures  ok:     result1 == nil <==> world.ucErr == nil
+//@   ensures  class:  result1 != nil ==> carries(result1, errors.classOf(world.ucErr))
+//@   ensures  resp:   result1 == nil ==> result0 != nil
+
+//@ func (*Service).GetKeys
+//@   requires inv:    i != nil && i.sUsecase != nil
+//@   modifies world.ucErr, world.ucCtx
+//@   ensures  passed: world.ucCtx == ctx
+//@   ensures  ok:     result1 == nil <==> world.ucErr == nil
+//@   ensures  class:  result1 != nil ==> carries(result1, errors.classOf(world.ucErr))
